@@ -673,11 +673,17 @@ def _norm_events(conn, evs):
     return out
 
 
-def _rc_match(mrc, irc, disconnecting):
+def _rc_match(mrc, irc, disconnecting, pub_qos12=False):
     if irc is None:
         return True
     if irc == "raised":
         return mrc == 4
+    if pub_qos12 and mrc == 2:
+        # publish(qos>0) reports EVERY failure to send its PUBLISH - also a write that failed hard, which
+        # _packet_queue reports as MQTT_ERR_CONN_LOST (the model's return value) - as MQTT_ERR_NO_CONN: the
+        # message stays stored for the next connection (repair e5489c0); the writer model knows nothing of
+        # publish()'s own mapping
+        return irc == int(mqtt.MQTT_ERR_NO_CONN) or (disconnecting and irc == 0)
     if mrc == 0:
         return irc == int(mqtt.MQTT_ERR_SUCCESS)
     if mrc == 2:
@@ -707,7 +713,9 @@ def compare(case, conn, mops):
                 ms.pop("ws", None)
             if ms != st:
                 return {"what": f"state differs after model op {k} (case op #{o['op']} {o['kind']})", "impl": st, "model": ms}
-            if not _rc_match(m["rc"], o["rc"], o.get("disconnecting")):
+            cop = case["ops"][o["op"]] if isinstance(o.get("op"), int) and o["op"] < len(case["ops"]) else {}
+            if not _rc_match(m["rc"], o["rc"], o.get("disconnecting"),
+                             pub_qos12=(o["kind"] == "pub" and cop.get("qos", 0) > 0)):
                 return {"what": f"return code differs at model op {k} (case op #{o['op']} {o['kind']})", "impl": o["rc"], "model_rc": m["rc"]}
     return None
 
